@@ -295,6 +295,12 @@ func runInterp(c *engine.Ctx, focus string) {
 	}
 	runtime := newEnvNode(ci, nil)
 	nrt := p.Draw(len(w.universe)+1, "cfg:runtime-n")
+	// no caller environment at all (nil): the library then works on a private, empty one - every time
+	nilEnv := p.Draw(8, "cfg:nil-env") == 7
+	if nilEnv {
+		nrt, ci = 0, false
+		runtime = newEnvNode(false, nil)
+	}
 	valPool := []string{"one", "two", "x y", "", "$FOO", "${BAR}", "$$BAZ", "v$K", "main", "/tmp/p", "a-b"}
 	for i := 0; i < nrt; i++ {
 		name := w.universe[p.Draw(len(w.universe), "rt:name")]
@@ -368,9 +374,33 @@ func runInterp(c *engine.Ctx, focus string) {
 		env := runtime.clone()
 		env.c = c
 		var err error
+		if nilEnv {
+			c.Guard(focus+".panic", "Interpolate(nil env)", func() { err = pl.Interpolate(nil, prefer) })
+			c.Ev("interpolated", label, err != nil)
+			return view.Dump(pl), nil, err
+		}
 		c.Guard(focus+".panic", "Interpolate", func() { err = pl.Interpolate(env, prefer) })
 		c.Ev("interpolated", label, err != nil)
 		return view.Dump(pl), env, err
+	}
+	if nilEnv {
+		// an earlier caller without an environment defined every name this document may refer to: nothing of
+		// that may be visible now
+		var pb strings.Builder
+		pb.WriteString(`{"env":{`)
+		for i, n := range w.universe {
+			if i > 0 {
+				pb.WriteString(",")
+			}
+			fmt.Fprintf(&pb, "%q:%q", n, "primed-"+n)
+		}
+		pb.WriteString(`},"steps":[{"command":"echo $FOO"}]}`)
+		var primer *pipeline.Pipeline
+		c.Guard(focus+".panic", "Parse primer", func() { primer, _ = pipeline.Parse(strings.NewReader(pb.String())) })
+		if primer != nil {
+			c.Guard(focus+".panic", "Interpolate primer (nil env)", func() { _ = primer.Interpolate(nil, false) })
+		}
+		c.Probe("nil_env_runs")
 	}
 	after, env, err := runOne(pl, "run1")
 
@@ -420,6 +450,11 @@ func runInterp(c *engine.Ctx, focus string) {
 	wantEnv := ex.tree.Get("Env")
 	if d, cp := gen.DiffClass(wantEnv, gotEnv, "Pipeline.Env", "Pipeline.Env"); d != "" {
 		c.Fail(focus+".envblock", cp, "env block after Interpolate differs from the model fold (want vs got): %s\nprefer_runtime=%v case_insensitive=%v runtime: %s\ndocument (%s):\n%s", d, prefer, ci, runtime.contents(), format, truncate(string(src), 1200))
+	}
+	if env == nil {
+		// no caller environment to observe: only the pipeline itself is judged
+		env = ex.envAfter.clone()
+		env.Hist = ex.sets
 	}
 	if len(env.Hist) != len(ex.sets) {
 		c.Fail(focus+".sethistory", "length", "EnvNode saw %d Set calls, model expects %d\ngot  %v\nwant %v\ndocument:\n%s", len(env.Hist), len(ex.sets), histStr(env.Hist), histStr(ex.sets), truncate(string(src), 1200))
